@@ -69,3 +69,8 @@ add('C16', 'SYS+ENUM', 'fault_enumeration',
     '(a) for every shell command index of every kind of job (scripted histories on a credentialed clone URL): the command fails and hangs while printing the URL; all channels (formatted log records with tracebacks at DEBUG and INFO, fd 1/2, job status/details/json, /api/jobs payload, status page, comments) are searched for the password in raw and quoted forms. (b) GitHub password and App flows through a scripted HTTP session with one misbehaving endpoint at a time; log, stdout, stderr and exception text searched for password, header values, JWT and installation token.',
     'fault injection keeps the original command line (behaviour comes from an environment variable) so a URL is on the command line only if the real command has it; mock git host for (a), scripted requests.Session.request for (b).',
     'exhaustive single-fault enumeration on the real implementation', 'DESIGN.md section 5 C16')
+
+add('C19', 'SYS', 'model_checking',
+    'BFS over histories where PR events, child-PR events and commit events on every source/integration/queue tip arrive in every order and multiplicity, with pushes, decline and merge; after every transition: at most one open integration PR per (branch, target), named and titled after its parent, branches only for targets beyond the first, exact cleanup on decline and merge; and the redirect differential: the event on a child PR or integration commit reaches the same state as the event on the parent.',
+    'mock git host (integration PRs whose branch vanished stay OPEN there); bounds in the evidence.',
+    'explicit-state BFS with state monitor + differential deviation', 'DESIGN.md section 5 C19')
